@@ -67,6 +67,19 @@ class Write:
         return '%s %s' % (self.kind, self.callee)
 
 
+def rv_term(bf, rv):
+    """term of an arbitrary statement rvalue"""
+    if rv.k == 'use':
+        return term_of_operand(bf, rv.ops[0])
+    if rv.k == 'bin':
+        return (rv.d['op'], term_of_operand(bf, rv.ops[0]), term_of_operand(bf, rv.ops[1]))
+    if rv.k == 'cast':
+        return ('cast', rv.d['ty'], term_of_operand(bf, rv.ops[0]), rv.d.get('from'))
+    if rv.k == 'un':
+        return (rv.d['op'], term_of_operand(bf, rv.ops[0]))
+    return ('rv', rv.k)
+
+
 def buffer_script(bf, is_buf):
     """writes into the buffer denoted by terms for which is_buf(peeled term) holds, in reverse post-order"""
     out = []
@@ -80,16 +93,16 @@ def buffer_script(bf, is_buf):
                 continue
             lt = term_of_place(bf, s.lhs)
             if lt[0] == 'index' and is_buf(peel(lt[1])):
-                v = term_of_operand(bf, s.rv.ops[0]) if s.rv.k == 'use' else ('rv', s.rv.k)
+                v = rv_term(bf, s.rv)
                 out.append(Write('byte', lt[2], None, v, bb, si))
             elif lt[0] == 'cindex' and is_buf(peel(lt[1])):
-                v = term_of_operand(bf, s.rv.ops[0]) if s.rv.k == 'use' else ('rv', s.rv.k)
+                v = rv_term(bf, s.rv)
                 out.append(Write('byte', ('const', lt[2]), None, v, bb, si))
             elif lt[0] == 'index':
                 # element of a sub-slice obtained by index_mut(buf, a..b): offset a + i
                 ic = index_call(lt[1])
                 if ic is not None and is_buf(ic[0]):
-                    v = term_of_operand(bf, s.rv.ops[0]) if s.rv.k == 'use' else ('rv', s.rv.k)
+                    v = rv_term(bf, s.rv)
                     out.append(Write('byte', ('Add', ic[1][0], lt[2]), None, v, bb, si))
         t = b.term
         if t.k != 'call':
@@ -158,3 +171,52 @@ def reads_of(bf, is_buf):
         if x not in res:
             res.append(x)
     return res
+
+
+# ---------------------------------------------------------------------------------------------- bit provenance on terms
+_W = {'u8': 8, 'u16': 16, 'u32': 32, 'u64': 64, 'usize': 64, 'i8': 8, 'i16': 16, 'i32': 32, 'i64': 64, 'isize': 64, 'bool': 1}
+
+
+def term_bits(bf, t, w):
+    """bit provenance (LSB first, w bits) of an integer def-chain term: entries 0, 1, ('i', input, k), ('n', e), '?'.
+    Inputs are parameters, field reads and element reads (named by their rendered term)."""
+    from .bits import b_and, b_or, b_xor, const_bits, extend, UNK
+    t = peel(t)
+    if not isinstance(t, tuple) or not t:
+        return [UNK] * w
+    h = t[0]
+    if h == 'const':
+        return const_bits(int(t[1]), w)
+    if h == 'cast':
+        tw = _W.get(t[1], w)
+        fw = _W.get(t[3] or '', None)
+        inner = term_bits(bf, t[2], fw or max(tw, w))
+        signed_from = (t[3] or '').startswith('i')
+        r = extend(inner[:fw] if fw else inner, tw, signed_from)
+        return extend(r, w, t[1].startswith('i'))
+    if h in ('BitAnd', 'BitOr', 'BitXor'):
+        a, b = term_bits(bf, t[1], w), term_bits(bf, t[2], w)
+        f = {'BitAnd': b_and, 'BitOr': b_or, 'BitXor': b_xor}[h]
+        return [f(x, y) for x, y in zip(a, b)]
+    if h in ('Shl', 'Shr', 'ShlUnchecked', 'ShrUnchecked') and peel(t[2])[0] in ('const', 'cast'):
+        k = peel(t[2])
+        k = k[1] if k[0] == 'const' else (peel(k[2])[1] if peel(k[2])[0] == 'const' else None)
+        if k is None:
+            return [UNK] * w
+        a = term_bits(bf, t[1], w)
+        if h.startswith('Shl'):
+            return ([0] * k + a)[:w]
+        return (a[k:] + [0] * k)[:w]
+    if h in ('Add', 'AddWithOverflow', 'AddUnchecked'):
+        a, b = term_bits(bf, t[1], w), term_bits(bf, t[2], w)
+        if all(x == 0 or y == 0 for x, y in zip(a, b)):
+            return [b_or(x, y) for x, y in zip(a, b)]
+        return [UNK] * w
+    if h == 'param':
+        tw = _W.get(bf.body.locals[t[1]], w)
+        return extend([('i', 'arg%d' % t[1], k) for k in range(tw)], w, bf.body.locals[t[1]].startswith('i'))
+    if h in ('index', 'cindex', 'field', 'call', 'as'):
+        name = term_str(t)
+        tw = 8 if h in ('index', 'cindex') else w
+        return extend([('i', name, k) for k in range(tw)], w, False)
+    return [UNK] * w
